@@ -2,6 +2,7 @@ package props
 
 import (
 	"fmt"
+	"go/constant"
 	"go/token"
 	"go/types"
 	"sort"
@@ -52,6 +53,12 @@ func describeHTTPCond(cd ir.Cond) string {
 	fieldName := func(v ssa.Value) string {
 		_, fv, ok := ir.FieldRead(v)
 		if !ok || fv == nil {
+			// (the hook handed to a private helper that tests it: `func (p postParser) isDefault() bool`)
+			if prm, isParam := ir.NormCell(v).(*ssa.Parameter); isParam && !ir.Exported(prm.Parent()) {
+				if sig, isSig := prm.Type().Underlying().(*types.Signature); isSig && sig.Results().Len() >= 1 && strings.Contains(sig.Results().At(0).Type().String(), "ParsedRequest") {
+					return "parseReq"
+				}
+			}
 			return ""
 		}
 		if sig, isSig := fv.Type().Underlying().(*types.Signature); isSig && sig.Results().Len() >= 1 && strings.Contains(sig.Results().At(0).Type().String(), "ParsedRequest") {
@@ -68,6 +75,39 @@ func describeHTTPCond(cd ir.Cond) string {
 			lhs := "?"
 			if n := fieldName(x); n != "" {
 				lhs = n
+			}
+			// (a field of a record a private helper fills from a library call's result:
+			// `ct := requestContentType(req); ct.media == …` is ParseMediaType's first result)
+			if hc, ri, fk, isRes := fieldOriginThroughParam(ir.NormCell(x)); isRes {
+				if h := hc.Call.StaticCallee(); h != nil && len(h.Blocks) > 0 && !ir.Exported(h) {
+					if fvs, known := ir.ResultFieldVals(h, ri, fk); known {
+						name := ""
+						for _, fv := range fvs {
+							if fv.Zero {
+								continue
+							}
+							e, isE := fv.Val.(*ssa.Extract)
+							if !isE {
+								name = "?"
+								break
+							}
+							call, isCall := e.Tuple.(*ssa.Call)
+							if !isCall || call.Call.StaticCallee() == nil {
+								name = "?"
+								break
+							}
+							n := ir.BaseName(call.Call.StaticCallee()) + fmt.Sprintf("#%d", e.Index)
+							if name != "" && name != n {
+								name = "?"
+								break
+							}
+							name = n
+						}
+						if name != "" && name != "?" {
+							lhs = name
+						}
+					}
+				}
 			}
 			if e, ok := x.(*ssa.Extract); ok {
 				if call, ok := e.Tuple.(*ssa.Call); ok {
@@ -105,6 +145,9 @@ func describeHTTPCond(cd ir.Cond) string {
 			}
 			if _, ok := v.(*ssa.Call); ok && v.Type().String() == "error" {
 				name = "err"
+			}
+			if _, ok := v.(*ssa.Phi); ok && v.Type().String() == "error" {
+				name = "err" // an error variable assigned on several branches
 			}
 			return name + op.String() + "nil"
 		}
@@ -304,6 +347,37 @@ func expandPredicateHelpersKeep(c *chk.Ctx, conds []ir.Cond, depth int, keep fun
 				}
 			}
 		}
+		// the verdict of a private classifier compared with a constant (`j.kind() != replyMessage`):
+		// the classifier's returns whose constant satisfies the test
+		if x, y, op, isRel := ir.Rel(cd); isRel && repl == nil && depth < 3 && (op == token.EQL || op == token.NEQ) {
+			call, isCall := x.(*ssa.Call)
+			want, isK := constKey(y)
+			if !isCall {
+				call, isCall = y.(*ssa.Call)
+				want, isK = constKey(x)
+			}
+			if isCall && isK {
+				if h := call.Call.StaticCallee(); h != nil && c.P.InRepo[h] && !ir.Exported(h) && h.Signature.Results().Len() == 1 {
+					allConst := true
+					var picked [][]ir.Cond
+					for _, r := range ir.Returns(h) {
+						s, isS := constKey(ir.ReturnResult(r, 0))
+						if !isS {
+							allConst = false
+							break
+						}
+						if (s == want) == (op == token.EQL) {
+							for _, alt := range ir.CondAltsAt(r.Block()) {
+								picked = append(picked, expandPredicateHelpersKeep(c, alt, depth+1, keep)...)
+							}
+						}
+					}
+					if allConst && len(picked) > 0 {
+						repl = picked
+					}
+				}
+			}
+		}
 		// the ok flag of a private helper with several results: v, ok := h(...)
 		if e, isE := cd.V.(*ssa.Extract); isE && depth < 3 && repl == nil {
 			if call, isCall := e.Tuple.(*ssa.Call); isCall {
@@ -428,6 +502,20 @@ func expandPredicateHelpersKeep(c *chk.Ctx, conds []ir.Cond, depth int, keep fun
 									repl = append(repl, expandPredicateHelpersKeep(c, conds[i], depth+1, keep)...)
 								}
 							default:
+								// (a value tested on the way to the return is known: `if err != nil { return nil, err }`)
+								decided := false
+								for _, kc := range conds[i] {
+									if kx, keq, isNC := ir.NilCompare(kc.V); isNC && kx == e {
+										decided = true
+										if (keq == kc.Truth) == wantNil {
+											repl = append(repl, expandPredicateHelpersKeep(c, conds[i], depth+1, keep)...)
+										}
+										break
+									}
+								}
+								if decided {
+									break
+								}
 								if _, isParam := e.(*ssa.Parameter); isParam {
 									known = false
 								} else {
@@ -776,14 +864,28 @@ func ruleBridgeIDs(c *chk.Ctx) {
 	})
 	c.Check(okSet, "PAIR.ids", f, "response i gets caller id i", f.Pos(), "SetID(inboundID[i]) is applied to response i of the batch", "responses are not relabelled index-for-index with the recorded caller ids")
 	// D4: status/shape
+	// (the 204 may be written by the serve function itself or — when it hands the results
+	// back — by the exported handler that calls it)
+	root204 := f
+	has204 := false
 	for _, sw := range statusWritesExt(c, f) {
+		if sw.isC && sw.code == 204 {
+			has204 = true
+		}
+	}
+	if !has204 {
+		if sh := jhttpFunc(c, "(Bridge).ServeHTTP"); sh != nil {
+			root204 = sh
+		}
+	}
+	for _, sw := range statusWritesExt(c, root204) {
 		if !sw.isC || sw.code != 204 {
 			continue
 		}
-		ks := condStrings(c.P.CondsWithin(sw.ci, f))
+		ks := condStrings(c.P.CondsWithin(sw.ci, root204))
 		// governed by len(results)==0 where results is the final list
 		okLen := true
-		alts204 := expandPredicateHelpers(c, c.P.CondsWithin(sw.ci, f), 0)
+		alts204 := expandPredicateHelpers(c, c.P.CondsWithin(sw.ci, root204), 0)
 		if len(alts204) == 0 {
 			okLen = false
 		}
@@ -1670,6 +1772,45 @@ func ruleLoop(c *chk.Ctx) {
 			}
 		}
 	})
+	if !okStop {
+		// or: the stop is registered to run when the context ends (context.AfterFunc runs it in
+		// its own goroutine once the context is done): the server's Stop itself, or a function
+		// that calls it on every path
+		isSrv := func(v ssa.Value) bool {
+			r := ir.NormCell(v)
+			return r == ssa.Value(start) || (srvNew != nil && r == ssa.Value(srvNew))
+		}
+		ir.Instrs(conn, func(ins ssa.Instruction) {
+			call, ok := ins.(*ssa.Call)
+			if !ok || !ir.IsCallTo(&call.Call, "context.AfterFunc") || len(call.Call.Args) != 2 {
+				return
+			}
+			mc, ok := ir.NormCell(call.Call.Args[1]).(*ssa.MakeClosure)
+			if !ok {
+				return
+			}
+			fn, _ := mc.Fn.(*ssa.Function)
+			if fn == nil {
+				return
+			}
+			if u := ir.UnwrapBound(fn); u != fn {
+				if ir.BaseName(u) == "Stop" && len(mc.Bindings) == 1 && isSrv(mc.Bindings[0]) {
+					okStop = true
+				}
+				return
+			}
+			if len(fn.Blocks) == 0 || len(fn.Blocks[0].Instrs) == 0 {
+				return
+			}
+			q := ir.PathQuery{Goal: func(i ssa.Instruction) bool {
+				ci, ok := i.(ssa.CallInstruction)
+				return ok && ci.Common().StaticCallee() != nil && ir.BaseName(ci.Common().StaticCallee()) == "Stop" && len(ci.Common().Args) > 0 && isSrv(ci.Common().Args[0])
+			}}
+			if ok, _ := q.MustReach(fn.Blocks[0].Instrs[0]); ok {
+				okStop = true
+			}
+		})
+	}
 	c.Check(okStop, "PAIR.loop", conn, "context end stops the server", conn.Pos(), "a watcher on a child of ctx (cancel deferred) calls Stop on this connection's server on every wake-up path", "no watcher goroutine stops this connection's server on every path after its context ends (a select that can take a branch without Stop leaves the server running when the parent context ended)")
 	// D6: error mapping: every way Loop returns a value (looking through phis and through a private
 	// helper that computes the result) is nil under IsErrClosing, or the accepter's own error
@@ -1778,27 +1919,90 @@ func ruleRecvClosesBody(c *chk.Ctx) {
 			ci, ok := i.(ssa.CallInstruction)
 			return ok && ci.Common().IsInvoke() && ci.Common().Method.Name() == "Close" && strings.HasSuffix(ci.Common().Value.Type().String(), "io.ReadCloser")
 		}
+		// acceptable without a close: the !ok edge, or the err != nil edge of the received struct
+		exemptCond := func(cd ir.Cond) bool {
+			if e, ok := cd.V.(*ssa.Extract); ok && e.Tuple == recv && e.Index == 1 && !cd.Truth {
+				return true
+			}
+			if x, eq, ok := ir.NilCompare(cd.V); ok && eq != cd.Truth {
+				if fld, ok := x.(*ssa.Field); ok && fld.Type().String() == "error" {
+					return true
+				}
+				if u, ok := x.(*ssa.UnOp); ok {
+					if fa, ok := u.X.(*ssa.FieldAddr); ok && ir.FieldVar(fa).Type().String() == "error" {
+						return true
+					}
+				}
+			}
+			return false
+		}
 		bad := ""
-		for _, r := range effectiveReturns(c, f, 0) {
-			// acceptable without a close: the !ok edge, or the err != nil edge of the received struct
+		rets := effectiveReturns(c, f, 0)
+		own := true
+		for _, r := range rets {
+			if r.Parent() != f {
+				own = false
+			}
+		}
+		if ri, isInstr := recv.(ssa.Instruction); isInstr && own && ri.Parent() == f {
+			// every path from the receive to a return (possibly one shared exit) passes a close
+			// or leaves by an exempt edge
+			closesIn := func(b *ssa.BasicBlock, from int) bool {
+				for i := from; i < len(b.Instrs); i++ {
+					if isClose(b.Instrs[i]) {
+						return true
+					}
+				}
+				return false
+			}
+			seen := map[*ssa.BasicBlock]bool{}
+			var walk func(b *ssa.BasicBlock, from int)
+			walk = func(b *ssa.BasicBlock, from int) {
+				if from == 0 {
+					if seen[b] {
+						return
+					}
+					seen[b] = true
+				}
+				if closesIn(b, from) {
+					return
+				}
+				if ret, isRet := b.Instrs[len(b.Instrs)-1].(*ssa.Return); isRet && bad == "" {
+					bad = c.P.Pos(ret.Pos())
+				}
+				for _, s := range b.Succs {
+					if cd, has := ir.EdgeOwnCond(b, s); has {
+						ex := false
+						for _, n := range ir.NormConds([]ir.Cond{cd}) {
+							if exemptCond(n) {
+								ex = true
+							}
+						}
+						if ex {
+							continue
+						}
+					}
+					walk(s, 0)
+				}
+			}
+			idx := 0
+			for i, ins := range ri.Block().Instrs {
+				if ins == ri {
+					idx = i + 1
+				}
+			}
+			walk(ri.Block(), idx)
+			rets = nil
+		}
+		for _, r := range rets {
 			exempt := false
 			conds := ir.CondsAt(r.Block())
 			if r.Parent() != f {
 				conds = c.P.CondsWithin(r, f)
 			}
 			for _, cd := range conds {
-				if e, ok := cd.V.(*ssa.Extract); ok && e.Tuple == recv && e.Index == 1 && !cd.Truth {
+				if exemptCond(cd) {
 					exempt = true
-				}
-				if x, eq, ok := ir.NilCompare(cd.V); ok && eq != cd.Truth {
-					if fld, ok := x.(*ssa.Field); ok && fld.Type().String() == "error" {
-						exempt = true
-					}
-					if u, ok := x.(*ssa.UnOp); ok {
-						if fa, ok := u.X.(*ssa.FieldAddr); ok && ir.FieldVar(fa).Type().String() == "error" {
-							exempt = true
-						}
-					}
 				}
 			}
 			if exempt {
@@ -1814,6 +2018,41 @@ func ruleRecvClosesBody(c *chk.Ctx) {
 				bad = c.P.Pos(r.Pos())
 			}
 		}
+		// the response object is looked into only where there is one: a failed round trip arrives
+		// as a nil response with an error, so every access through the response pointer sits
+		// under `err == nil` of the received record or under a nil test of the pointer itself
+		// (an access made when a defer statement is evaluated counts where the statement is)
+		unguarded := ""
+		ir.Instrs(f, func(ins ssa.Instruction) {
+			fa, ok := ins.(*ssa.FieldAddr)
+			if !ok || !strings.HasSuffix(fa.X.Type().String(), "net/http.Response") {
+				return
+			}
+			guarded := false
+			for _, cd := range ir.NormConds(ir.CondsAt(fa.Block())) {
+				x, eq, isNC := ir.NilCompare(cd.V)
+				if !isNC {
+					continue
+				}
+				if eq != cd.Truth && (ir.SameValue(x, fa.X) || sameFieldRead(x, fa.X)) {
+					guarded = true
+				}
+				if eq == cd.Truth && x.Type().String() == "error" {
+					switch y := x.(type) {
+					case *ssa.Field:
+						guarded = true
+					case *ssa.UnOp:
+						if _, isFA := y.X.(*ssa.FieldAddr); isFA {
+							guarded = true
+						}
+					}
+				}
+			}
+			if !guarded && unguarded == "" {
+				unguarded = c.P.Pos(fa.Pos())
+			}
+		})
+		c.Check(unguarded == "", "PAIR.body", f, "response looked into only when there is one", recv.Pos(), "every access through the received response pointer is under err == nil of the record or a nil test of the pointer", "the received HTTP response is dereferenced at "+unguarded+" without knowing that the round trip succeeded: a transport failure arrives as a nil response with an error, so the receiver would panic instead of reporting the error")
 		c.Check(bad == "", "PAIR.body", f, "body closed on every path after a response was received", recv.Pos(), "every return that follows the receipt of an HTTP response is dominated by Body.Close()", "a return at "+bad+" follows the receipt of an HTTP response without closing its body (e.g. the non-200 status path): the response has left the channel, so Close cannot close it either")
 	}
 }
@@ -2112,4 +2351,68 @@ func responseReceives(c *chk.Ctx) []respRecv {
 		out = append(out, respRecv{f, recv})
 	}
 	return out
+}
+
+// constKey renders a string or integer constant for comparison with another.
+func constKey(v ssa.Value) (string, bool) {
+	k, ok := v.(*ssa.Const)
+	if !ok || k.Value == nil || (k.Value.Kind() != constant.String && k.Value.Kind() != constant.Int) {
+		return "", false
+	}
+	return k.Value.ExactString(), true
+}
+
+// sameFieldRead: a and b read the same field of the same base, each directly
+// or through a pure getter.
+func sameFieldRead(a, b ssa.Value) bool {
+	ba, fa, oka := ir.FieldRead(a)
+	bb, fb, okb := ir.FieldRead(b)
+	return oka && okb && fa != nil && fa == fb && (ba == bb || ir.SameValue(ba, bb))
+}
+
+// fieldOriginThroughParam is ir.StructFieldOrigin that also follows a record
+// handed to a private one-caller helper (a method of the record type) back to
+// the call that produced it.
+func fieldOriginThroughParam(v ssa.Value) (*ssa.Call, int, int, bool) {
+	if call, ri, fk, ok := ir.StructFieldOrigin(v); ok {
+		return call, ri, fk, true
+	}
+	var base ssa.Value
+	field := 0
+	switch x := v.(type) {
+	case *ssa.Field:
+		base, field = x.X, x.Field
+	case *ssa.UnOp:
+		fa, ok := x.X.(*ssa.FieldAddr)
+		if !ok {
+			return nil, 0, 0, false
+		}
+		base, field = fa.X, fa.Field
+		if al, isAl := base.(*ssa.Alloc); isAl {
+			if sts := ir.CellStores(al); len(sts) == 1 {
+				base = sts[0].Val
+			}
+		}
+	default:
+		return nil, 0, 0, false
+	}
+	prm, ok := ir.NormCell(base).(*ssa.Parameter)
+	if !ok {
+		return nil, 0, 0, false
+	}
+	p := ir.ProgOf(prm.Parent())
+	if p == nil {
+		return nil, 0, 0, false
+	}
+	switch src := p.Canon(prm).(type) {
+	case *ssa.Call:
+		if src.Call.StaticCallee() != nil && src.Call.Signature().Results().Len() == 1 {
+			return src, 0, field, true
+		}
+	case *ssa.Extract:
+		if call, isCall := src.Tuple.(*ssa.Call); isCall {
+			return call, src.Index, field, true
+		}
+	}
+	return nil, 0, 0, false
 }
